@@ -56,6 +56,11 @@ NEEDS = {
  "C13d_cmdsubst_waits_before_reading": "a command substitution whose command writes more than the pipe holds (1024 bytes in the simulator) before exiting",
  "C14d_heredoc_dash_counts_all_tabs": "a `<<-` here-document with a body line that contains a tab beyond its leading tabs",
  "C15d_receiver_keeps_first_waker": "a Receiver polled once by one task, then awaited by another, before the value is sent",
+ "C16d_unset_local_only": "a function-local variable hiding an outer one, `unset` of it inside the function, then a lookup",
+ "C17d_alias_in_noncommand_words": "a word spelled like a (non-global) alias in a for-loop name/value list, case subject or pattern, or array value",
+ "C18d_undo_redirs_oldest_first": "script read from stdin and a non-forking command that redirects descriptor 0 twice (same change as round 1's C09_undo_order, found independently from the C18 side)",
+ "C19d_fork_inherits_pending_signals": "a trapped signal arrives while the shell reads a command substitution and the shell forks again in the same command",
+ "C20d_set_option_name_nonascii": "`set -o NAME` where NAME has a non-ASCII alphanumeric character plus an upper-case letter or punctuation and is an option name without it",
  "C19c_append_after_truncate": "an O_APPEND descriptor kept open, written, the file truncated through another open, then written again",
 }
 for d in sorted(glob.glob('/verif/seeded/*/')):
